@@ -9,5 +9,6 @@ func All() map[string]core.Prop {
 		"C02": C02{},
 		"C03": C03{},
 		"C04": C04{},
+		"C17": C17{},
 	}
 }
